@@ -10,6 +10,7 @@ CONSTANTS
     ReadVariant = "tail"
     Emit = "none"
     Regs = {}
+    InitMem = "pattern"
     DisVariant = "masked"
 SPECIFICATION SpecDis
 VIEW View
